@@ -1,6 +1,6 @@
 META = {
     "level": "model_checking",
-    "technique": "TLA+ model of the initial handshake of both ends with a man in the middle who injects plaintext packets and deletes ciphertext packets (StrictKex.tla) model-checked by TLC (Terrapin toggle EnforceStrict=FALSE must be refuted); real client/server handshakes under the same attacker on an in-memory link (every injection type x position x direction, Terrapin injection+deletion, strict on/off per side); each end's consumed-packet sequence is replayed through the spec's Step function and the end-of-run observations judged by TLC (StrictKex_Trace.tla)",
+    "technique": "TLA+ model of the initial handshake of both ends with a man in the middle who injects plaintext packets and deletes ciphertext packets (StrictKex.tla) model-checked by TLC (Terrapin toggle EnforceStrict=FALSE must be refuted); real client/server handshakes under the same attacker on an in-memory link (every injection type x position x direction, Terrapin injection+deletion, strict on/off per side; MAC-based and AES-GCM ciphers); re-exchanges with a peer that sends the marker once (StrictRekey.tla: mode latched, counters restart at every NEWKEYS whatever the cipher mode); each end's consumed-packet sequence is replayed through the spec's Step function and the end-of-run observations judged by TLC (StrictKex_Trace.tla)",
     "text": "TLC explores all attacker schedules (one injection + one deletion, 2 application messages per side) and checks NoShiftedSession, ForgedNeverSurvives and the sequence-number reset; the real transports are then attacked the same way and TLC checks, per end, that whenever the spec says the handshake must die the real session is not established, sequence numbers restart at 0 after NEWKEYS in both directions, a late KEXINIT is refused, and the post-NEWKEYS stream received is a prefix of what the peer sent",
     "note": "trusted: TLC, netsched man in the middle (sees whole packets; plaintext before NEWKEYS), tap packetizer digests; the symbolic model binds KEXINIT substitution to the exchange-hash check (C06's territory); paramiko has no chacha20-poly1305 so the working-shifted-session outcome is unreachable even without strict kex - the check asserts terminate-or-intact",
 }
